@@ -468,3 +468,163 @@ def capa_float_stream(ctx, count):
         ctx.mismatch(f"{mt['detector']} ({mt['penalty_shape']}) on float data (n={mt['n']}, p={mt['p']}, m={mt['min_segment_length']}, M={mt['max_segment_length']}): the generic dynamic "
                      f"programme evaluated on the binary64 savings of the real scorer does not reproduce the implementation (anomalies {mt['impl_anomalies']} / scores bit for bit)", mt,
                      {"what": "float-table-mismatch", "detector": mt["detector"]})
+
+
+# ------------------------------------------------------------------------------------------------------------------
+# DEFAULT configurations at REALISTIC scale (hundreds to thousands of rows, up to ten columns): the exact correspondences above use short series and
+# small hyper-parameters; defects that need a long series, many columns or the default values (bandwidth 30, max_interval_length 200 / 1000, ...)
+# would pass them.  Here the detectors run as a user would run them and the property-level re-checks (_pelt_spec, _mw_spec, _sbs_spec, _cbs_spec -- the
+# Python twins of the models, on the scorer's own values) decide.
+# ------------------------------------------------------------------------------------------------------------------
+def _long_series(rng, n, p):
+    X = np.asarray([[rng.gauss(0, 1) for _ in range(p)] for _ in range(n)])
+    k = max(1, n // 150)
+    for c in sorted(rng.sample(range(20, n - 20), min(k, n - 40))):
+        X[c:, : rng.randint(1, p)] += rng.choice([3.0, -4.0, 1.5])
+    return X
+
+
+def pelt_default_scale_stream(ctx, count, n_range=(300, 700)):
+    from skchange.change_detectors import PELT
+    from skchange.costs import L2Cost
+    rng = ctx.rng
+    for it in range(count):
+        n, p = rng.randint(*n_range), rng.choice([1, 3, 10])
+        Xn = _long_series(rng, n, p)
+        X = pd.DataFrame(Xn)
+        d = PELT().fit(X)
+        m, pen = d.min_segment_length, float(d.penalty_)
+        scores = d.transform_scores(X).to_numpy().reshape(-1)
+        cpts = [int(v) for v in d.predict(X)["ilocs"]]
+        sc = L2Cost().fit(Xn)
+        tab = [[0.0] * (n + 1) for _ in range(n + 1)]
+        cuts = np.asarray([(s, e) for s in range(n + 1) for e in range(s + m, n + 1)])
+        for (s, e), v in zip(cuts, _agg(sc, cuts)):
+            tab[s][e] = float(v)
+        mt = {"detector": "PELT", "cost": "L2Cost (defaults)", "min_segment_length": m, "n": n, "p": p, "data": "long series", "penalty": pen, "impl_changepoints": cpts,
+              "impl_scores": [float(v) for v in scores], "data_seed_note": "X is regenerated from the check's seed"}
+        ctx.case({"default_scale": "pelt", "it": it, "n": n, "p": p, "x0": float(Xn[0, 0])}, nontrivial=len(cpts) > 0,
+                 sample={"stream": "default configuration at scale", "detector": "PELT", "n": n, "p": p, "impl_changepoints": cpts[:10]})
+        ctx.count("default_scale", "PELT")
+        err = _pelt_spec_fast(mt, tab)
+        if err:
+            ctx.violation(f"PELT() with default hyper-parameters on a {n} x {p} series: {err}", dict(mt, impl_scores=None, X=Xn.tolist() if n * p <= 4000 else None),
+                          {"what": "default-scale-spec", "detector": "PELT"})
+
+
+def _pelt_spec_fast(mt, tab):
+    """_pelt_spec without the O(n^3) split-inequality scan (the squared-error cost satisfies it up to rounding): admissibility, final score = own cost = optimum"""
+    n, m, pen = mt["n"], mt["min_segment_length"], mt["penalty"]
+    F = [-pen] + [float("inf")] * n
+    for t in range(m, n + 1):
+        best = F[0] + tab[0][t] + pen
+        for s in range(m, t - m + 1):
+            v = F[s] + tab[s][t] + pen
+            if v < best:
+                best = v
+        F[t] = best
+    cp = [0] + mt["impl_changepoints"] + [n]
+    if any(b - a < m for a, b in zip(cp, cp[1:])):
+        return f"changepoints {mt['impl_changepoints'][:12]} leave a segment shorter than min_segment_length = {m}"
+    own = sum(tab[a][b] for a, b in zip(cp, cp[1:])) + pen * len(mt["impl_changepoints"])
+    tol = 1e-8 * (abs(F[n]) + abs(own) + abs(tab[0][n]) + abs(pen) * (len(cp) + 1)) + 1e-300
+    if abs(mt["impl_scores"][-1] - own) > tol:
+        return f"final score {mt['impl_scores'][-1]!r} is not the penalised cost {own!r} of the reported changepoints"
+    if own > F[n] + tol:
+        return f"penalised cost of the reported changepoints is {own!r}, the optimum over admissible segmentations is {F[n]!r}"
+    return None
+
+
+def mw_default_scale_stream(ctx, count, n_range=(400, 3000)):
+    from skchange.change_detectors import MovingWindow
+    from skchange.change_scores import CUSUM
+    rng = ctx.rng
+    for it in range(count):
+        n, p = rng.randint(*n_range), rng.choice([1, 3, 10])
+        Xn = _long_series(rng, n, p)
+        X = pd.DataFrame(Xn)
+        d = MovingWindow().fit(X)
+        b, mdi = d.bandwidth, d.min_detection_interval
+        scores = d.transform_scores(X).to_numpy().reshape(-1)
+        cpts = [int(v) for v in d.predict(X)["ilocs"]]
+        ts_ = list(range(b, n - b + 1))
+        vals = _agg(CUSUM().fit(Xn), [(t - b, t, t + b) for t in ts_])
+        row = [0.0] * (n + 1)
+        for t, v in zip(ts_, vals):
+            row[t] = float(v)
+        mt = {"detector": "MovingWindow", "score": "CUSUM (defaults)", "bandwidth": b, "min_detection_interval": mdi, "n": n, "p": p, "data": "long series",
+              "threshold": float(d.threshold_), "impl_changepoints": cpts}
+        ctx.case({"default_scale": "mw", "it": it, "n": n, "p": p, "x0": float(Xn[0, 0])}, nontrivial=len(cpts) > 0,
+                 sample={"stream": "default configuration at scale", "detector": "MovingWindow", "n": n, "p": p, "impl_changepoints": cpts[:10]})
+        ctx.count("default_scale", "MovingWindow")
+        err = _mw_spec(mt, row, [float(v) for v in scores])
+        if err:
+            ctx.violation(f"MovingWindow() with default hyper-parameters on a {n} x {p} series: {err}", dict(mt, X=Xn.tolist() if n * p <= 4000 else None),
+                          {"what": "default-scale-spec", "detector": "MovingWindow"})
+
+
+def sbs_default_scale_stream(ctx, count, n_range=(300, 1200)):
+    from skchange.change_detectors import SeededBinarySegmentation
+    from skchange.change_scores import CUSUM
+    rng = ctx.rng
+    for it in range(count):
+        n, p = rng.randint(*n_range), rng.choice([1, 3, 10])
+        Xn = _long_series(rng, n, p)
+        X = pd.DataFrame(Xn)
+        d = SeededBinarySegmentation().fit(X)
+        m = d.min_segment_length
+        cpts = [int(v) for v in d.predict(X)["ilocs"]]
+        tabl = d.scores
+        ivs = [(int(a), int(b_)) for a, b_ in zip(tabl["start"], tabl["end"])]
+        sc = CUSUM().fit(Xn)
+        rows = []
+        for (s, e) in ivs:
+            ks = list(range(s + m, e - m + 1))
+            rows.append([float(v) for v in _agg(sc, [(s, k, e) for k in ks])] if ks else [])
+        mt = {"detector": "SeededBinarySegmentation", "score": "CUSUM (defaults)", "min_segment_length": m, "n": n, "p": p, "data": "long series",
+              "threshold": float(d.threshold_), "impl_changepoints": cpts, "intervals": [list(t) for t in ivs]}
+        ctx.case({"default_scale": "sbs", "it": it, "n": n, "p": p, "x0": float(Xn[0, 0])}, nontrivial=len(cpts) > 0,
+                 sample={"stream": "default configuration at scale", "detector": "SeededBinarySegmentation", "n": n, "p": p, "n_intervals": len(ivs), "impl_changepoints": cpts[:10]})
+        ctx.count("default_scale", "SeededBinarySegmentation")
+        err = None
+        lens = [e - s for s, e in ivs]
+        if not ivs or min(lens) < 2 * m or max(lens) > min(d.max_interval_length, n) or any(s < 0 or e > n for s, e in ivs):
+            err = f"candidate intervals with lengths {min(lens) if lens else None} .. {max(lens) if lens else None} outside [2 m, min(max_interval_length, n)] = [{2 * m}, {min(d.max_interval_length, n)}]"
+        err = err or _sbs_spec(mt, rows, [int(v) for v in tabl["argmax_cpt"]], [float(v) for v in tabl["score"]])
+        if err:
+            ctx.violation(f"SeededBinarySegmentation() with default hyper-parameters on a {n} x {p} series: {err}", dict(mt, intervals=None, X=Xn.tolist() if n * p <= 4000 else None),
+                          {"what": "default-scale-spec", "detector": "SeededBinarySegmentation"})
+
+
+def cbs_default_scale_stream(ctx, count, n_range=(90, 140)):
+    from skchange.anomaly_detectors import CircularBinarySegmentation
+    from skchange.anomaly_scores import LocalAnomalyScore
+    from skchange.costs import L2Cost
+    rng = ctx.rng
+    for it in range(count):
+        n, p = rng.randint(*n_range), rng.choice([1, 3])
+        Xn = np.asarray([[rng.gauss(0, 1) for _ in range(p)] for _ in range(n)])
+        a = rng.randint(10, n - 40)
+        Xn[a:a + rng.randint(6, 25)] += rng.choice([4.0, -5.0])
+        X = pd.DataFrame(Xn)
+        d = CircularBinarySegmentation().fit(X)
+        m = d.min_segment_length
+        y = d.predict(X)
+        anoms = [(int(l), int(r)) for l, r in zip(y["ilocs"].array.left, y["ilocs"].array.right)]
+        tabl = d.scores
+        ivs = [(int(a_), int(b_)) for a_, b_ in zip(tabl["interval_start"], tabl["interval_end"])]
+        sc = LocalAnomalyScore(L2Cost()).fit(Xn)
+        rows = []
+        for (s, e) in ivs:
+            cands = model_anomaly_intervals(s, e, m)
+            rows.append([float(v) for v in _agg(sc, [(s, a_, b_, e) for a_, b_ in cands])] if cands else [])
+        inner = [(int(a_), int(b_)) for a_, b_ in zip(tabl["argmax_anomaly_start"], tabl["argmax_anomaly_end"])]
+        mt = {"detector": "CircularBinarySegmentation", "score": "L2Cost (defaults)", "min_segment_length": m, "n": n, "p": p, "data": "one collective anomaly",
+              "threshold": float(d.threshold_), "impl_anomalies": [list(t) for t in anoms], "intervals": [list(t) for t in ivs]}
+        ctx.case({"default_scale": "cbs", "it": it, "n": n, "p": p, "x0": float(Xn[0, 0])}, nontrivial=len(anoms) > 0,
+                 sample={"stream": "default configuration at scale", "detector": "CircularBinarySegmentation", "n": n, "p": p, "n_intervals": len(ivs), "impl_anomalies": anoms})
+        ctx.count("default_scale", "CircularBinarySegmentation")
+        err = _cbs_spec(mt, rows, inner, [float(v) for v in tabl["score"]])
+        if err:
+            ctx.violation(f"CircularBinarySegmentation() with default hyper-parameters on a {n} x {p} series: {err}", dict(mt, intervals=None, X=Xn.tolist()),
+                          {"what": "default-scale-spec", "detector": "CircularBinarySegmentation"})
